@@ -287,6 +287,10 @@ fn engine_round<B: Backend>(b: &B, prog: Arc<Program>, roots: &[NodeId], inputs:
             or.refr.inputs.insert(*i, nv);
             let (exp, _) = or.expect(roots);
             let t = engine.clone().tracked().await;
+            // (the known finding C01-F1 - executor-level reads skip the firewall repair - is
+            // not this check's subject: the user repairs below every root first; a lost
+            // backward edge is not healed by that)
+            crate::eng::prerepair_tfc(&t, &crate::eng::topo_order(&prog, roots)).await;
             let mut stale = Vec::new();
             for n in roots {
                 let v = query_node(&t, *n).await;
